@@ -169,7 +169,10 @@ def run(tier, seed):
                  (bmm.cfg_make(size=(1, 1), levy='none', cache_size=None), 25000),
                  (bmm.cfg_make(wrapper='tree', size=(1, 1), tol=0.), 5000),
                  (bmm.cfg_make(wrapper='path', size=(1, 1), cache_size=None), 25000),
-                 (bmm.cfg_make(size=(1, 1), levy='space-time', cache_size=45, t0=-1., t1=1.), 25000)]
+                 (bmm.cfg_make(size=(1, 1), levy='space-time', cache_size=45, t0=-1., t1=1.), 25000),
+                 # a dt hint far coarser than the steps actually taken: a chain-shaped tree, ancestors evicted on the way back
+                 (bmm.cfg_make(size=(1, 1), levy='space-time', cache_size=45, dt=0.5), 1500),
+                 (bmm.cfg_make(size=(1, 1), levy='none', cache_size=10, dt=0.5), 1500)]
     if tier == 'thorough':
         long_cfgs += [(bmm.cfg_make(size=(1, 1), levy='space-time', cache_size=45), 60000),
                       (bmm.cfg_make(size=(1, 1), levy='none', cache_size=0), 3000)]
